@@ -371,7 +371,13 @@ func (d *SDriver) collections() map[uint32]string {
 	return colls
 }
 
+// verOverride: the server version of every driver built in this process (children of the gate scenario)
+var verOverride *couchbase.Version
+
 func (d *SDriver) version() *couchbase.Version {
+	if verOverride != nil {
+		return verOverride
+	}
 	if d.SerialVersion {
 		return &couchbase.Version{Major: 5, Minor: 4, Patch: 9, Build: 9}
 	}
